@@ -671,6 +671,11 @@ fn to_list(ctx: &Context, top: &Number, list: &[&str]) -> Result<Vec<NumberParts
             ))));
         }
     }
+    if units.iter().any(|unit| unit.value == Numeric::zero()) {
+        return Err(QueryError::generic(
+            "Division by zero: unit list contains a unit with value zero".to_string(),
+        ));
+    }
     let mut value = top.value.clone();
     let mut out = vec![];
     let len = units.len();
